@@ -346,6 +346,7 @@ void vprop_case (VChoices *c, VResult *r)
   if (vc_chance (c, 1, 4)) { go.max_insns = 90; go.min_insns = 30 + (int) vc_pick (c, 60); }
   if (vc_chance (c, 1, 4)) {
     go.single_opcode = (int) vc_pick (c, (uint32_t) v_noptab);
+    if (v_optab[go.single_opcode].flags & VOP_INVARIANT) go.single_opcode = 0;     /* loadpX is inserted by the compiler, not written by users */
     go.single_form = (int) vc_pick (c, (uint32_t) ps_single_forms (&v_optab[go.single_opcode]));
   }
   if (mode == 2) { go.max_insns = 3; go.min_insns = 0; }
@@ -400,7 +401,7 @@ void vprop_case (VChoices *c, VResult *r)
         v_fail (r, sig, "fatal result %s but the program carries executable code", v_result_name (res));
       }
       /* a fatal result for a well-typed program is not excluded by the property's wording: counted, not judged */
-      if (valid) r->classes |= 1u << 18;
+      if (valid) { r->classes |= 1u << 18; if (v_arg ("showfatal", NULL)) fprintf (stderr, "VALID-FATAL target=%s flags=0x%x result=%s msg=%s\n%s\n", tnames[t], flags, v_result_name (res), p->error_msg ? p->error_msg : "", r->desc); }
     } else if (ORC_COMPILE_RESULT_IS_SUCCESSFUL (res)) {
       r->classes |= 1u << 12;
       /* "callable code" can only be asked of an executable target; a source-generating target must leave its listing */
